@@ -86,9 +86,55 @@ def run(ctx):
                  if any(e.kind == 'loop0' for e in p.events)]
     for p in zero_rets:
         v = p.retval
-        ok = is_call(v, 'torch.tensor') and v[2][0] in (('const', 0.0), ('const', 0))
-        ctx.ob('R19b', 'DUCCIO.__call__ empty sum is 0', ok, 'sum starts from 0',
-               where(call), nontrivial=False)
+        try:
+            z = NumEval(repo, lambda t: None).ev(v)
+            ok = z.lo == 0 and z.hi == 0
+        except NumError:
+            ok = False
+        ctx.ob('R19b', 'DUCCIO.__call__ empty sum is 0', ok, 'sum starts from 0' if ok else
+               f'with no constraint the penalty is {short(v)}', where(call), nontrivial=False)
+    # two generic constraints (loop unrolled twice): one satisfied, one violated.  The penalty
+    # must be > 0 and must grow with the violated cost: slack on one metric must not offset the
+    # excess on another (each term is clamped on its own).
+    two = [p for p in returning(paths(repo, call, None, 2))
+           if sum(1 for e in p.events if e.kind == 'loopend') >= 1 and
+           len({x for x in subterms(p.retval) if x[0] == 'elem' and
+                is_call(x[1], 'builtins.zip')}) == 2]
+    if not two:
+        raise AnalysisError('DUCCIO.__call__: two-iteration path not found')
+    for k, p in enumerate(two[:2]):
+        t = p.retval
+        els = sorted({x for x in subterms(t) if x[0] == 'elem' and is_call(x[1], 'builtins.zip')},
+                     key=lambda x: len(x[2]))
+        e1, e2 = els
+
+        def inp2(x, e1=e1, e2=e2):
+            for tag, el, xr in (('1', e1, (-INF, 0.0)), ('2', e2, (1e-6, INF))):
+                st = ('sub', el, ('const', 1))
+                tg = ('sub', ('sub', el, ('const', 0)), ('const', 1))
+                nm = ('sub', ('sub', el, ('const', 0)), ('const', 0))
+                if x == st:
+                    return AV(1e-6, INF, {'s' + tag: 1})
+                if x[0] == 'bin' and x[1] == '-' and x[3] == tg and method_call(x[2]) and \
+                        method_call(x[2])[1] == 'get_cost' and x[2][2] == (nm,):
+                    return AV(xr[0], xr[1], {'c' + tag: 1})
+            if x == epoch:
+                return AV(0.0, INF, {'e': 1})
+            if x == nep:
+                return AV(1.0, INF, {'n': 1})
+            return None
+        try:
+            v2 = NumEval(repo, inp2).ev(t)
+        except NumError as ex:
+            raise AnalysisError(f'DUCCIO two-constraint scenario outside the numeric domain: {ex}')
+        ok = v2.lo > 0 and v2.d('c2') == 1
+        ctx.ob('R19b', f'DUCCIO.__call__ one satisfied + one violated constraint [{k}]', ok,
+               'penalty > 0 and growing with the violated cost, whatever the slack of the other'
+               if ok else
+               f'with one cost below its target and another above, the penalty lies in '
+               f'[{v2.lo}, {v2.hi}] (direction in the violated cost: {v2.d("c2")}): slack on one '
+               f'metric offsets the excess on another, so a violated constraint can go '
+               f'unpenalised', where(call))
     for k, p in enumerate(rets):
         t = p.retval
         zips = [x for x in subterms(t) if x[0] == 'elem' and is_call(x[1], 'builtins.zip')]
